@@ -55,6 +55,7 @@ fn all_harnesses() -> Vec<HarnessDef> {
   v.extend(h_sched::harnesses());
   v.extend(h_sched::harnesses2());
   v.extend(h_sched::harnesses3());
+  v.extend(h_sched::harnesses4());
   v.extend(h_conv::harnesses());
   v.extend(h_diff::harnesses());
   v.extend(h_threads::harnesses());
